@@ -26,7 +26,7 @@ prop("C01", "exploration",
      "defined on the fork, boundary-heavy operands, calls/creates/selfdestructs/loops, 1-3 top-level invocations over "
      "all six entry points, forks Frontier..Shanghai x extra-EIP subsets x access lists), each executed on upstream "
      "core/vm and on artela-evm (5 tracer/join-point configurations). Non-trivial = the reference run executed >= 8 "
-     "instructions and (entered a nested frame or executed a state-changing opcode); distinct = distinct scenario JSON.",
+     "instructions and (entered a nested frame or executed a state-changing opcode); distinct = distinct scenario JSON. Generator additions (shared by C02 and C18): creations followed by an access to the created address whether or not the creation succeeded, init-code sizes around the EIP-170 / EIP-3860 limits, programs that fill the stack to 1024 / 1023 / 1022 items before one more instruction, standard precompile calls with overlapping windows, same-key SSTORE sequences, EVM.Reset between invocations.",
      [{"test": "TestC01", "quick": {"checks": 6000, "shards": 2, "timeout": 600},
        "thorough": {"checks": 35000, "shards": 16, "timeout": 7200}},
       {"fuzz": "FuzzC01", "thorough": {"fuzztime": "180s", "timeout": 1800}}])
@@ -62,7 +62,7 @@ prop("C15", "exploration",
      "failure, refused in static context, empty per transaction, fee 100); every MCOPY is compared with an EIP-5656 "
      "model (memmove on zero-extended memory, new size, 3+3*words+expansion gas, unpayable => failure); the same scenario "
      "re-run on a generated pre-Cancun fork must raise invalid opcode at each of the three bytes. Non-trivial = an "
-     "overlapping, memory-expanding MCOPY or a TLOAD of a key restored by a failed frame.",
+     "overlapping, memory-expanding MCOPY or a TLOAD of a key restored by a failed frame. One contract in ten is a stack-limit program (TLOAD / TSTORE / MCOPY with 1023 or 1024 items on the stack); a stack error is only accepted with fewer operands than the instruction pops.",
      [{"test": "TestC15", "quick": {"checks": 4000, "shards": 2, "timeout": 600},
        "thorough": {"checks": 25000, "shards": 16, "timeout": 7200}}])
 
@@ -77,7 +77,7 @@ prop("C07", "exploration",
      "indices 0..n-1 = the number of call attempts counted independently from the instruction stream, FindCall(i).Index==i, "
      "parent.Index < Index, each node exactly once among its parent's children in increasing order, all accessors "
      "consistent, every node reachable, and each node's parent = the innermost recorded frame that issued it (from the "
-     "event stream). Non-trivial = >= 3 nodes, >= 1 failed node, depth >= 2.",
+     "event stream). Non-trivial = >= 3 nodes, >= 1 failed node, depth >= 2. 5% of the cases come from the 1024-depth template (with a CREATE variant) and the address-collision template.",
      [{"test": "TestC07", "quick": {"checks": 4000, "shards": 2, "timeout": 600},
        "thorough": {"checks": 40000, "shards": 16, "timeout": 7200}}])
 
@@ -86,7 +86,7 @@ prop("C08", "exploration",
      "instant; Enter/Exit events and the caller-side gas arithmetic give supplied gas, output, error, leftover gas. After "
      "the whole scenario node k of the call tree must equal attempt k in From, To, Value, Gas, Data, Ret, Err text and "
      "RemainingGas, and no further node may exist. Non-trivial = a call whose argument window was overwritten later in "
-     "the same frame, or a call refused up front.",
+     "the same frame, or a call refused up front. Recorded fields are compared node by node in creation order also when the links of the tree are broken; depth and collision templates as in C07.",
      [{"test": "TestC08", "quick": {"checks": 4000, "shards": 2, "timeout": 600},
        "thorough": {"checks": 40000, "shards": 16, "timeout": 7200}}])
 
@@ -115,7 +115,7 @@ prop("C04", "fault_enumeration",
      "failure; (2) trace replay: the final state after each invocation equals pre-state + the effects (SSTORE, LOG, "
      "transfers, nonce bumps, code deposits, self-destructs) of exactly the frames that succeeded together with all their "
      "ancestors; (3) metamorphic: succeeding Aspects / nothing bound == join points off. Non-trivial = a tree with >= 2 "
-     "firing positions or a value-carrying frame that failed while its caller continued with a later effect.",
+     "firing positions or a value-carrying frame that failed while its caller continued with a later effect. Trees also contain creations whose init code ends in a rejected deposit (0xEF code, oversize code, deposit gas) and value-carrying, mostly failing calls to standard precompiles.",
      [{"test": "TestC04", "quick": {"checks": 250, "shards": 4, "timeout": 900},
        "thorough": {"checks": 2000, "shards": 16, "timeout": 7200}}])
 
@@ -129,7 +129,7 @@ prop("C06", "exploration",
      "given; an exhausted Aspect surfaces as vm.ErrOutOfGas BY IDENTITY (frame exit, call-tree node, entry-point result) "
      "with 0 returned; other non-revert post failures return 0; metamorphic: with identical control flow and no forfeiting "
      "frame, leftover gas differs from the run without Aspects by exactly the sum of reported burns. Non-trivial = some "
-     "Aspect burned gas and the surrounding frame's gas was observed against it.",
+     "Aspect burned gas and the surrounding frame's gas was observed against it. Each case is also re-checked on variants in which a top-level call is given exactly the gas its pre join point burns, one more, and exactly what the whole frame consumes.",
      [{"test": "TestC06", "quick": {"checks": 600, "shards": 4, "timeout": 900},
        "thorough": {"checks": 2500, "shards": 16, "timeout": 7200}}])
 
@@ -153,7 +153,7 @@ prop("C13", "exploration",
      "after) of every transfer; the owning call index is the call-tree index of the frame being entered (independent "
      "call-attempt log). For every account and index Balance(acct).Changes()[idx] must equal from-before, to-before, "
      "from-after, to-after restricted to the account with immediate repeats collapsed; no other entry may exist. "
-     "Non-trivial = >= 2 transfers incl. a zero-value one, a self-transfer or one in a failed frame.",
+     "Non-trivial = >= 2 transfers incl. a zero-value one, a self-transfer or one in a failed frame. Half of the trees also register and journal storage keys.",
      [{"test": "TestC13", "quick": {"checks": 8000, "shards": 2, "timeout": 600},
        "thorough": {"checks": 80000, "shards": 16, "timeout": 7200}}])
 
@@ -168,7 +168,7 @@ prop("C11", "exploration",
      "accepted; I3 invalid offset / unknown parent / unregistered key are refused and a refused operation leaves EVERY "
      "query result unchanged (full observable snapshot); I4 repeating an accepted registration changes nothing; I5 reported "
      "child indices == indices accepted under the node. Conflicting registrations may be refused or aliased, but whatever "
-     "is accepted must satisfy I1-I5. Non-trivial = two accepted keys share a slot and a change was accepted in it.",
+     "is accepted must satisfy I1-I5. Non-trivial = two accepted keys share a slot and a change was accepted in it. Offsets include values that alias a valid one under 8- or 64-bit narrowing; index keys include the empty key and a single zero byte.",
      [{"test": "TestC11", "quick": {"checks": 6000, "shards": 4, "timeout": 600},
        "thorough": {"checks": 80000, "shards": 16, "timeout": 7200}},
       {"test": "TestC11Exhaustive", "quick": {"checks": 1, "shards": 1, "timeout": 600},
@@ -188,7 +188,7 @@ prop("C19", "exploration",
      "real EVM with 0-3 real WASM Aspects (no-op / burning / trapping / reverting) per join point while the real callTracer / "
      "flatCallTracer listens; the tree rebuilt from the recorded event stream (frames, Aspect executions with gas in / out, "
      "error) is the oracle's input and must equal the decoded tracer result. Non-trivial = >= 2 Aspects on one join point or "
-     "a call inside an Aspect.",
+     "a call inside an Aspect. Aspect frames are also compared for identity (from, to, input, aspect id) and the flat result object (presence, gasUsed, output) for EVM and Aspect frames.",
      [{"test": "TestC19", "quick": {"checks": 30000, "shards": 2, "timeout": 600},
        "thorough": {"checks": 300000, "shards": 16, "timeout": 7200}},
       {"test": "TestC19Hybrid", "quick": {"checks": 150, "shards": 4, "timeout": 900},
@@ -205,7 +205,7 @@ prop("C09", "exploration",
      "decoder of Solidity's storage layout applied to the pre-state: valid => the frame continues and the last entry under "
      "the executing call index, reached by name AND by (slot, offset, type), equals the decoded bytes; invalid => the frame "
      "fails at that instruction and nothing is recorded; never a panic. Non-trivial = packed field with offset>0 and "
-     "0<width<32, string with leading zero byte or length>=31, or an invalid case.",
+     "0<width<32, string with leading zero byte or length>=31, or an invalid case. A third of the valid cases re-journal the variable after overwriting the slot with alternating contents (A, B, A ...): last recorded value and the whole list of that call are compared.",
      [{"test": "TestC09", "quick": {"checks": 10000, "shards": 2, "timeout": 600},
        "thorough": {"checks": 100000, "shards": 16, "timeout": 7200}},
       {"fuzz": "FuzzC09", "thorough": {"fuzztime": "90s", "timeout": 1500}}])
@@ -241,7 +241,7 @@ prop("C12", "exploration",
      "malformed operand sets (unregistered key, offset/size out of range, offset+size beyond the word, invalid string "
      "encoding, unknown parent, stack underflow) in top-level / CALL / STATICCALL / DELEGATECALL frames: P versus P'' with "
      "INVALID in place of the journal instruction must have identical outcome INCLUDING gas and identical world state. "
-     "Non-trivial = a journal instruction executed in a nested or static frame, or a malformed case.",
+     "Non-trivial = a journal instruction executed in a nested or static frame, or a malformed case. Malformed operands: fixed list plus systematic mutation of exactly one operand of a well-formed set per role (pointer, offset, size, ids). One case in seven drives the contracts with little gas: a journal instruction that has its fee available must not run out of gas.",
      [{"test": "TestC12", "quick": {"checks": 1500, "shards": 4, "timeout": 900},
        "thorough": {"checks": 9000, "shards": 16, "timeout": 7200}}])
 
@@ -258,7 +258,7 @@ prop("C03", "exploration",
      "cursor is at rest after every top-level return, the event stream is balanced, and an appended trivial top-level call "
      "is announced by CaptureStart (call depth back to 0). A state wrapper counts reads per instruction and aborts "
      "instructions beyond 1e5 reads (reported as unbounded work, C20's open finding). Non-trivial = a journal opcode "
-     "executed, an Artela precompile reached, or an exceptional halt.",
+     "executed, an Artela precompile reached, or an exceptional halt. Also: boundary storage words 2^k +- d, 1024-depth and address-collision templates, code tails ending in a truncated PUSHn after a taken jump, calldata in buffers of exactly its length.",
      [{"test": "TestC03", "savelast": True, "quick": {"checks": 5000, "shards": 4, "timeout": 900},
        "thorough": {"checks": 30000, "shards": 16, "timeout": 7200}},
       {"fuzz": "FuzzC03", "thorough": {"fuzztime": "120s", "timeout": 1500}}])
@@ -274,7 +274,7 @@ prop("C20", "exploration",
      "same meter runs 92 probe programs of standard opcodes / precompiles (memory expansion, copies, hashing, logs, "
      "storage, account reads, identity/sha256 with 0..256 KiB) on the UPSTREAM interpreter and a, c are 4x the worst ratios "
      "observed (reported in the evidence). Instructions beyond 2e5 reads are cut off and reported. Non-trivial = a length "
-     ">= 2^20 / a large payload, or an instruction that touched >= 2 state entries.",
+     ">= 2^20 / a large payload, or an instruction that touched >= 2 state entries. Further families: hostile length words in 0x66 payloads with little more than the fee forwarded; histories of one flat-fee journal instruction executed 64..20000 times on new locations (growth law over window means); one JUMP repeated inside init code of up to 1 MiB (bound on the window mean); BLOCKHASH probes with every host block-hash lookup observed (only the 256 most recent blocks may be asked for).",
      [{"test": "TestC20", "quick": {"checks": 1500, "shards": 4, "timeout": 900},
        "thorough": {"checks": 8000, "shards": 16, "timeout": 7200}}])
 
@@ -307,10 +307,12 @@ prop("C16", "exploration",
 prop("C17", "exploration",
      "cases = 3-10 scenarios per case (always the pair 'London without / with extra EIP-3855 executing PUSH0', plus generated "
      "programs, scripted call trees with journal instructions, trees with real WASM Aspects bound, key-tree heavy scripts; "
-     "with and without extra EIPs). Built with the Go race detector (halt on first report). Sequential pre-pass gives each "
-     "scenario's rendering (outcomes, state roots, call tree); then every scenario runs TWICE concurrently, all goroutines "
-     "released by one barrier, each on its own StateDB and EVM: every concurrent result must equal the sequential one and "
-     "the race detector must stay silent. Cancellation, harness-owned schedule: a looping program (plain loop / loop "
+     "with and without extra EIPs). Built with the Go race detector (halt on first report). Every scenario runs TWICE "
+     "concurrently FIRST, all goroutines released by one barrier, each on its own StateDB and EVM but sharing one "
+     "configuration as a host does; a sequential pass afterwards gives each scenario's reference rendering (outcomes, state "
+     "roots, call tree): every concurrent result must equal it and the race detector must stay silent. Always present: the "
+     "context pair (two contracts looping CALL 0x66 / 0x64) and the undefined-opcode pair (frames ending on byte values no "
+     "fork defines, join points on). Cancellation, harness-owned schedule: a looping program (plain loop / loop "
      "calling a helper / loop re-entering itself by STATICCALL) is cancelled from the debug-tracer callback at a generated "
      "step 1..400: no panic, balanced frames, cursor at rest, Cancelled() true and every JUMP/JUMPI executed afterwards is "
      "the last instruction of its frame. Cross-goroutine variant (30%): another goroutine cancels after a generated number "
